@@ -207,6 +207,32 @@ def loop_items(an, fx, b):
     return out
 
 
+def _vertex_domain(an, fx, nev, Ns):
+    """'all' when the loop of `nev` ranges over every vertex (vertices() of the digraph, or 0..order), 'narrow' when it is
+    a range 0..n whose end is not known to equal the order, None when the iterator has another form"""
+    d = fx.iter_desc(nev)
+    if not d or d == "CYCLE":
+        return None
+    while d[0] == "call" and d[3] and d[1] in ("core::iter::traits::collect::IntoIterator::into_iter",):
+        d = d[3][0]
+    if d[0] == "call" and d[1].endswith("Vertices::vertices"):
+        return "all"
+    if d[0] == "site":
+        ev = fx.an_call_at(d[1])
+        if ev is not None and ev["key"] and ev["key"].endswith("Vertices::vertices"):
+            return "all"
+    if d[0] == "agg" and d[1] == "adt" and d[2][1] == "Range" and len(d[3]) == 2:
+        lo, hi = d[3]
+        if not const_is(lo, 0):
+            return "narrow"
+        if hi in Ns or (hi[0] == "call" and hi[1].endswith("Order::order")):
+            return "all"
+        if fx.holds(nev["b"], lambda rel: any(rel.eq(hi, n_) for n_ in Ns)):
+            return "all"
+        return "narrow"
+    return None
+
+
 def rule_fw_shape(crate, prop, tier):
     o = Obl("FW-SHAPE")
     S = "graaf::algo::floyd_warshall::FloydWarshall"
@@ -259,6 +285,13 @@ def rule_fw_shape(crate, prop, tier):
         its = loop_items(an, fx, ev["b"])
         o.check(len(its) == 1 and its[0][1] == a and complete_scan(an, fx, its[0][0]), who, "F4-diagonal-all",
                 "the diagonal loop does not cover every vertex", ev["span"])
+        if len(its) == 1:
+            dom = _vertex_domain(an, fx, its[0][0], Ns)
+            if dom is None:
+                o.undecide(who, "F4-diagonal-domain", "the diagonal loop iterates over something the rule does not interpret")
+            else:
+                o.check(dom == "all", who, "F4-diagonal-domain", "the diagonal loop is a range that is not known to end at the order: "
+                        "the distance of a vertex outside it to itself stays infinite", ev["span"])
     o.check(len(init_w) >= 1, who, "F4-weights", "arc weights are not written into the matrix")
     for ev, (a, b), val in init_w:
         its = loop_items(an, fx, ev["b"])
@@ -289,6 +322,12 @@ def rule_fw_shape(crate, prop, tier):
         for nev, it in its:
             o.check(complete_scan(an, fx, nev) or _only_continue_exits(an, fx, nev), who, "F1-complete-loops",
                     "a loop of the triple loop can end early", nev["span"])
+            dom = _vertex_domain(an, fx, nev, Ns)
+            if dom is None:
+                o.undecide(who, "F1-all-vertices", "a loop of the triple loop iterates over something the rule does not interpret")
+            else:
+                o.check(dom == "all", who, "F1-all-vertices", "a loop of the triple loop is a range that is not known to end at the order",
+                        nev["span"])
         b = ev["b"]
         for opnd, nm in ((x, "first"), (y, "second")):
             o.check(fx.holds(b, lambda rel, opnd=opnd: any(a_[0] == "ne" and opnd in a_[1:] and ("const", "isize", IMAX) in a_[1:] for a_ in rel.w)),
